@@ -46,6 +46,11 @@ func (p propSpec) Deadline(tier int) time.Duration { return p.DeadlineT[tier] }
 const techSX = "symbolic execution of the real code's go/ssa (GoSX) with SMT (z3) deciding every branch and assertion over all values of the symbolic inputs within the stated bounds; counterexamples replayed natively"
 
 var properties = map[string]propSpec{
+	"C05": {
+		Level: "model_checking", Technique: techSX,
+		Bounds:  [2]string{"selectors of 1..3 parts; absent step at leaf / intermediate / root / field / index / scalar / nil, through maps (string, named-string, typed, nil), structs, lists, pointers and quantifier aliases; map key bytes symbolic (1 byte: the solver decides collision); 8 operators; unknown value symbolic in int64/string/bool/uint8/nil", "same"},
+		Outside: "parent reached through *map (an error today; the statement says 'a map'); key strings longer than 1 symbolic byte",
+	},
 	"C03": {
 		Level: "model_checking", Technique: techSX,
 		Bounds:  [2]string{"leaves: 7 outcome gadgets (3 for depth-3 skeletons) with symbolic data; every pair of leaves for one step (and/or/not, double negation, De Morgan); 8 depth-3 skeletons over three leaves", "7 gadgets for the step, 5 for depth-3 skeletons"},
